@@ -140,7 +140,15 @@ def r1_slot_tables(run, w, mod, ce):
   removed = {v.loop_head(l) for l in outer}
   stops = not (cfg.reach_after({dn.id}, removed=removed) & {tm.head})
   # no allowed type matched: every way out of the loop that did not dispatch raises
-  esc = cfg.path(tm.head, removed | {cfg.exit.id}, removed={dn.id}, after=True)
+  # (a `found` flag cleared before the loop and set where the parser runs is followed)
+  flag_start = tm.head
+  for p_ in cfg.pred[tm.head]:
+    if p_ not in cfg.reach_after({tm.head}):
+      st_ = cfg.nodes[p_].stmt
+      if cfg.nodes[p_].kind == "stmt" and isinstance(st_, ast.Assign) and \
+          isinstance(st_.value, ast.Constant) and isinstance(st_.value.value, bool):
+        flag_start = p_
+  esc = H.flag_path(cfg, flag_start, {dn.id}, removed | {cfg.exit.id}, after=(flag_start == tm.head))
   ok = is_match and guarded and stops and esc is None
   run.ob(R1, ps.qualname, "for t in allowed: if m.group(t): _SLOT_PARSERS[t](m); break / else: "
          "raise", "the parser run is the one of the group that matched, and a slot type that is "
@@ -400,8 +408,11 @@ def r3_units(run, w, mod, ce):
         not td[0].args and all(k.arg is None for k in td[0].keywords)
     for (atom, pol) in av.facts_at(td[0]):
       c = H.eq_const(atom)
+      ic = H.in_consts(atom)
       if c is not None and c[0] == up and pol is False:
         own.add(c[1])
+      elif ic is not None and ic[0] == up and pol is False:
+        own.update(ic[1])
       else:
         ok = False       # the timedelta arm is restricted by something else
   ok = ok and (set(units) - own) <= TIMEDELTA_KWARGS and own <= set(units)
